@@ -717,6 +717,7 @@ def run(ck: core.Check):
 
         tab = ml_overrides.generate()
         ck.cov["override_table"] = [f"{r['module']}:{r['op']}#{r['hash']}" for r in tab["rows"]]
+        ck.cov["value_override_table"] = [f"{r['module']}:{r['cls']}#{r['hash']}" for r in tab.get("value_rows", [])]
     except Exception as e:  # noqa: BLE001
         ck.broken("translator", "ml_overrides not extractable", f"{type(e).__name__}: {e}")
     ck.lean(["SpoxModel.Props.C06"], audit="SpoxModel.Audit.C06")
